@@ -476,6 +476,9 @@ func c17Step(c *mixCase, p *spec.Swagger, ms []*spec.Swagger, pj map[string]any,
 
 func mixReplay(check func(c *mixCase, pol mcrt.Policy) (string, string, bool, string)) func(v *Violation) string {
 	return func(v *Violation) string {
+		if v.Generator == "c17seq" {
+			return c17SeqReplay(v)
+		}
 		b, _ := json.Marshal(v.Input)
 		var c mixCase
 		_ = json.Unmarshal(b, &c)
@@ -609,5 +612,6 @@ func init() {
 				runMix(c, "c17", &k, &mixCase{Primary: mustJSON(parts(pm, "P")), Mixins: []string{mustJSON(parts(mm, "M1"))}}, nil, c17Check)
 			}
 		}
+		c17Sequences(c)
 	}, Replay: mixReplay(c17Check)})
 }
